@@ -3,6 +3,7 @@
 use super::PropInfo;
 use crate::client::{Client, Framing, RecvErr, Resp, DEFAULT_TIMEOUT};
 use crate::rt::{self, t, Outcome, RunCfg, Verdict};
+use ohkami::util::StreamExt as _;
 use ohkami::sse::DataStream;
 use ohkami::{Ohkami, Request, Response, Route};
 use serde::{Deserialize, Serialize};
@@ -13,12 +14,12 @@ use std::rc::Rc;
 pub const INFO: PropInfo = PropInfo {
     quick_runs: 40_000,
     thorough_runs: 1_500_000,
-    rule: "each run = 1..3 SSE connections, each with a generated producer script (sends of arbitrary Unicode text with LF/CR/CRLF/leading spaces/field look-alikes/NUL/BOM, bursts, yields, timer sleeps, completion with empty or non-empty queue) through one of three producer kinds \
+    rule: "each run = 1..3 SSE connections, each with a generated producer script (sends of arbitrary Unicode text with LF/CR/CRLF/leading spaces/field look-alikes/NUL/BOM, bursts, yields, timer sleeps, completion with empty or non-empty queue) through one of seven producer kinds (DataStream::new, a hand-written Stream, Response::with_stream, and the public combinators queue().filter / .map / .chain and a hand-written Stream .filter) \
            (DataStream::new queue, DataStream::from(custom Stream), Response::with_stream), read by clients with tape-chosen read sizes, pauses and windows (back-pressure), a normal request following on the same connection; \
            non-trivial = at least one event was received; distinct = distinct hash of (scripts, producer kinds, socket behaviour)",
     state_measure: "(producer kind, script shape: burst/yield/sleep/finish-with-queue, reader pace) combinations",
     assumptions: &["messages are valid UTF-8 (Rust strings)", "total planned stream time stays below the keep-alive timeout"],
-    expected_probes: &["c17.burst_before_yield", "c17.finish_with_nonempty_queue", "c17.zero_messages", "c17.message_with_cr", "c17.message_with_lf", "c17.backpressure_fired", "c17.followup_answered", "c17.sleep_in_producer", "c17.empty_message", "c17.more_than_32_messages", "c17.more_than_256_messages"],
+    expected_probes: &["c17.burst_before_yield", "c17.finish_with_nonempty_queue", "c17.zero_messages", "c17.message_with_cr", "c17.message_with_lf", "c17.backpressure_fired", "c17.followup_answered", "c17.sleep_in_producer", "c17.empty_message", "c17.more_than_32_messages", "c17.more_than_256_messages", "c17.stream_combinator", "c17.last_message_rejected_by_filter", "c17.reader_stalls_for_seconds"],
 };
 
 #[derive(Clone, Debug, Serialize, Deserialize, PartialEq)]
@@ -29,7 +30,9 @@ pub enum Step {
 }
 #[derive(Clone, Debug, Serialize, Deserialize)]
 pub struct StreamPlan {
-    /// 0 = DataStream::new (queue), 1 = DataStream::from(custom stream), 2 = Response::with_stream
+    /// 0 = DataStream::new (queue), 1 = DataStream::from(custom stream), 2 = Response::with_stream,
+    /// 3 = stream::queue(..).filter(..) (messages starting `DROP:` are rejected), 4 = stream::queue(..).map(..) (`m` -> `[m]`),
+    /// 5 = queue(first half).chain(queue(second half)), 6 = custom stream .filter(..)
     pub kind: u8,
     pub steps: Vec<Step>,
     pub read_max: usize,
@@ -40,6 +43,19 @@ pub struct StreamPlan {
     /// Some(n): this client goes away (connection error) after having read n bytes; nothing is asserted about its own stream
     #[serde(default)]
     pub abort_after: Option<usize>,
+    /// the reader stops reading once, for this many ms, after having received this many bytes (long back-pressure)
+    #[serde(default)]
+    pub stall: Option<(usize, u64)>,
+}
+
+/// the messages the handler's stream yields (what the client must decode), given the script and the producer kind
+pub fn expected_messages(pl: &StreamPlan) -> Vec<String> {
+    let sent: Vec<String> = pl.steps.iter().filter_map(|s| if let Step::Send(m) = s { Some(m.clone()) } else { None }).collect();
+    match pl.kind {
+        3 | 6 => sent.into_iter().filter(|m| !m.starts_with("DROP:")).collect(),
+        4 => sent.into_iter().map(|m| format!("[{m}]")).collect(),
+        _ => sent,
+    }
 }
 #[derive(Clone, Debug, Serialize, Deserialize)]
 pub struct Scenario {
@@ -69,7 +85,7 @@ fn gen_text() -> String {
 
 fn gen_plan(_i: usize) -> StreamPlan {
     let n = t::weighted(&[1, 2, 3, 3, 2, 2, 1, 1]);
-    let mut steps = Vec::new();
+    let mut steps: Vec<Step> = Vec::new();
     // long runs: counters inside the stream (fairness budgets, batch sizes, ring positions) only show after many items
     let long = t::chance(1, 8);
     for _ in 0..n {
@@ -102,7 +118,25 @@ fn gen_plan(_i: usize) -> StreamPlan {
         read_pause_ms = 0;
     }
     let abort_after = if _i > 0 && t::chance(1, 6) { Some(t::pick(&[0usize, 1, 60, 150, 400])) } else { None };
-    StreamPlan { kind: t::draw(3) as u8, steps, read_max, read_pause_ms, window, short_writes: t::chance(1, 3), start_ms: t::pick(&[0u64, 0, 1, 30]), abort_after }
+    let kind = if t::chance(1, 3) { 3 + t::draw(4) as u8 } else { t::draw(3) as u8 };
+    if kind == 3 || kind == 6 {
+        // some messages are rejected by the filter: alone, in runs, first, last
+        for st in steps.iter_mut() {
+            if let Step::Send(m) = st {
+                if t::chance(1, 3) {
+                    *m = format!("DROP:{m}");
+                }
+            }
+        }
+    }
+    // one long stall of the reader (seconds), with a window small enough for the server's write to pend meanwhile
+    let (stall, window) = if abort_after.is_none() && t::chance(1, 10) { (Some((t::pick(&[0usize, 20, 200, 2000]), t::pick(&[5_500u64, 7_000, 12_000]))), t::pick(&[9usize, 64, 300])) } else { (None, window) };
+    // the keep-alive timeout (42 s) bounds the whole session: keep the planned transfer, stall included, well below it
+    let mut read_pause_ms = read_pause_ms;
+    if stall.is_some() && (total / read_max.min(window).max(1)) as u64 * read_pause_ms > 8_000 {
+        read_pause_ms = 0;
+    }
+    StreamPlan { kind, steps, read_max, read_pause_ms, window, short_writes: t::chance(1, 3), start_ms: t::pick(&[0u64, 0, 1, 30]), abort_after, stall }
 }
 
 pub fn generate(_cfg: &RunCfg, _out: &mut Outcome) -> Scenario {
@@ -186,7 +220,41 @@ fn sse_handler(req: &Request) -> Response {
             let ds: DataStream<String> = DataStream::from(ScriptStream { steps: steps.into(), sleeping: None });
             ohkami::IntoResponse::into_response(ds)
         }
-        _ => Response::OK().with_stream(ScriptStream { steps: steps.into(), sleeping: None }),
+        2 => Response::OK().with_stream(ScriptStream { steps: steps.into(), sleeping: None }),
+        3 => {
+            let q = ohkami::util::stream::queue(move |mut q| run_script(steps, move |m| q.push(m)));
+            let ds: DataStream<String> = DataStream::from(q.filter(|m: &String| !m.starts_with("DROP:")));
+            ohkami::IntoResponse::into_response(ds)
+        }
+        4 => {
+            let q = ohkami::util::stream::queue(move |mut q| run_script(steps, move |m| q.push(m)));
+            let ds: DataStream<String> = DataStream::from(q.map(|m: String| format!("[{m}]")));
+            ohkami::IntoResponse::into_response(ds)
+        }
+        5 => {
+            let half = steps.len() / 2;
+            let (a, b) = (steps[..half].to_vec(), steps[half..].to_vec());
+            let qa = ohkami::util::stream::queue(move |mut q| run_script(a, move |m| q.push(m)));
+            let qb = ohkami::util::stream::queue(move |mut q| run_script(b, move |m| q.push(m)));
+            let ds: DataStream<String> = DataStream::from(qa.chain(qb));
+            ohkami::IntoResponse::into_response(ds)
+        }
+        _ => {
+            let st = ScriptStream { steps: steps.into(), sleeping: None };
+            let ds: DataStream<String> = DataStream::from(st.filter(|m: &String| !m.starts_with("DROP:")));
+            ohkami::IntoResponse::into_response(ds)
+        }
+    }
+}
+
+/// the producer script, pushing through `push`
+async fn run_script(steps: Vec<Step>, mut push: impl FnMut(String)) {
+    for st in steps {
+        match st {
+            Step::Send(m) => push(m),
+            Step::Yield => tokio::task::yield_now().await,
+            Step::Sleep(ms) => tokio::time::sleep(std::time::Duration::from_millis(ms)).await,
+        }
     }
 }
 
@@ -296,6 +364,15 @@ fn execute(sc: &Scenario, out: &mut Outcome) {
         if msgs.len() >= 33 {
             out.probe("c17.more_than_32_messages");
         }
+        if pl.kind >= 3 {
+            out.probe("c17.stream_combinator");
+        }
+        if (pl.kind == 3 || pl.kind == 6) && pl.steps.iter().rev().find_map(|s| if let Step::Send(m) = s { Some(m.starts_with("DROP:")) } else { None }) == Some(true) {
+            out.probe("c17.last_message_rejected_by_filter");
+        }
+        if pl.stall.is_some() {
+            out.probe("c17.reader_stalls_for_seconds");
+        }
         if msgs.len() >= 257 {
             out.probe("c17.more_than_256_messages");
         }
@@ -347,6 +424,7 @@ fn execute(sc: &Scenario, out: &mut Outcome) {
                 simcore::sleep(MS).await;
                 return;
             }
+            c.stall = pl.stall.map(|(a, ms)| (a, ms * MS));
             let r = c.recv_paced(false, DEFAULT_TIMEOUT, pl.read_max, pl.read_pause_ms * MS).await;
             let ok = r.is_ok();
             o.borrow_mut().first = Some(r);
@@ -376,7 +454,7 @@ fn execute(sc: &Scenario, out: &mut Outcome) {
     }
     for (i, pl) in sc.streams.iter().enumerate() {
         let ob = obs[i].borrow();
-        let msgs: Vec<String> = pl.steps.iter().filter_map(|s| if let Step::Send(m) = s { Some(m.clone()) } else { None }).collect();
+        let msgs: Vec<String> = expected_messages(pl);
         let ctx = format!("stream {i} (kind {}, {} messages, read_max {}, pause {} ms, window {})", pl.kind, msgs.len(), pl.read_max, pl.read_pause_ms, pl.window);
         let r = match &ob.first {
             Some(Ok(r)) => r,
